@@ -43,6 +43,9 @@ claim('C14', 'proof', 'Coq theorems (constructor / clone / substructure specific
       'clone and get_substructure (after fix F2) preserve labels and give exactly the induced transitions, RuntimeError exactly when the induced relation is not total. '
       'On the heap model (label sets are cells; Model/HeapKripkeOps.v): C14_ctor_fresh_label_sets, C14_clone_no_shared_label_set, C14_substructure_no_shared_label_set (fresh cells; a write on either side never reaches the other), '
       'C14_substructure_raises_cleanly, C14_sharing_clone_refuted. '
+      'Structures edited after construction (Model/KripkeOps.v, fix 8bf41ed): C14_added_states_are_labelled (any history of add_node / add_edge keeps one label entry per state, old labels, initial states; the graph is the one of C13_mutator_histories), '
+      'C14_grown_structure_is_wellformed (a grown structure that is total again is wf_K: the model-checking theorems apply), C14_unlabelled_growth_refuted (the inherited DiGraph methods lose the entry: self._labels[2] raises). '
+      'Tie for these: a stream that grows random structures step by step and compares structure, labels(s) of every state and the three checkers with the extracted kapply / label_entry / models after every step. '
       'Tie: every argument combination over <= 2 states, all 3-state (S,R) with sampled S0/L, random <= 5 states, every subset V; container-type and state-type variation (incl. one-shot iterators, identity-hashed state objects).',
       'The heap model is a transcription (constructor = one new cell per state), tied to the pure model by theorem; label-set aliasing of the Python objects (id disjointness, mutation through every handed-out object) is additionally monitored at run time.')
 claim('C04', 'proof', 'Coq corollaries of the exactness theorems C01-C03 (22 laws) + implementation-side evaluation of every law with per-answer comparison to the model',
